@@ -28,12 +28,30 @@ pub fn random_params(r: &mut Rng) -> ParamSpec {
     match r.below(10) {
         0 => ParamSpec::Default,
         1..=6 => ParamSpec::Preset(PRESETS[r.below(5) as usize]),
-        _ => {
+        7..=8 => {
             let vals = [f64::INFINITY, f64::NEG_INFINITY, 0.0, 0.5, -0.5, 1.5, -1.5, 2.0, 1e3, -1e3];
             let a = *r.pick(&vals);
             let b = *r.pick(&vals);
             let g = *r.pick(&[0.0, 0.5, 1.0, 2.0, 3.0, 1e3]);
             let w = *r.pick(&[f64::INFINITY, f64::NEG_INFINITY, 0.0, 1.0, 0.5, -0.5]);
+            ParamSpec::Custom([a, b, g, w])
+        }
+        _ => {
+            // anything the constructor accepts: exponents of any moderate size (log-uniform up to
+            // 1e3, either sign), so that powers of t sweep through the whole float range —
+            // including the sub-normal band just above underflow and the band just below overflow
+            let e = |r: &mut Rng, signed: bool| -> f64 {
+                let m = 10f64.powf(r.f() * 4.0 - 1.0); // 0.1 .. 1000
+                if signed && r.coin(0.5) {
+                    -m
+                } else {
+                    m
+                }
+            };
+            let a = e(r, true);
+            let b = e(r, true);
+            let g = e(r, false);
+            let w = if r.coin(0.5) { e(r, true) } else { *r.pick(&[f64::INFINITY, f64::NEG_INFINITY, 0.0]) };
             ParamSpec::Custom([a, b, g, w])
         }
     }
